@@ -54,13 +54,14 @@ def parseAtom (s : String) : Option AtomIn :=
 structure GroupIn where
   g : GroupT Float
   pos : Angle.P3 Float
+  id : GroupId
 
 def parseGroup (s : String) : Option GroupIn :=
   match s.splitOn "|" with
   | [ty, rt, lb, pr, rn, q, m, ti, br, at_, ia, ib, cv, x, y, z] =>
     match intOf rn, ofBits? q, ofBits? m, at_.toNat?, natList ia, natList ib, natList cv, ofBits? x, ofBits? y, ofBits? z with
     | some rn, some q, some m, some at_, some ia, some ib, some cv, some x, some y, some z =>
-      some ⟨⟨unhexS ty, unhexS rt, unhexS lb, pr == "1", rn, q, m, ti == "1", br == "1", at_, ia, ib, cv⟩, ⟨x, y, z⟩⟩
+      some ⟨⟨unhexS ty, unhexS rt, q, m, ti == "1", br == "1", at_, ia, ib, cv⟩, ⟨x, y, z⟩, ⟨unhexS lb, pr == "1", rn⟩⟩
     | _, _, _, _, _, _, _, _, _, _ => none
   | _ => none
 
@@ -90,7 +91,7 @@ def handle (args : List String) : String :=
       let gr : Tab (GroupT Float) := ⟨garr.size, fun i => ((garr[i]?).map (·.g)).getD GroupT.dflt⟩
       let ares : Nat → ResKey := fun i => ((aarr[i]?).map (·.res)).getD (0, "")
       let env := envOf (fun i => ((aarr[i]?).map (·.pos)).getD z) (fun i => ((garr[i]?).map (·.pos)).getD z) ares
-        (fun g => ares (gr.get g).atom)
+        (fun g => ares (gr.get g).atom) (fun i => ((garr[i]?).map (·.id)).getD ⟨"", true, 0⟩)
       let out := score p env atab gr
       if out.isEmpty then "-" else ";".intercalate (out.map showOut)
     | _, _, _ => "bad-op"
